@@ -167,6 +167,11 @@ def judge_builtin(ctx, b, line, label):
     everything = set(DOC_CLASSES[1] + DOC_CLASSES[2] + DOC_CLASSES[4] + DOC_CLASSES[8])
     for f in (1, 2, 4, 8, 16):
         need("allminus%d" % f, core.hx("".join(sorted(everything - set(DOC_CLASSES[f])))), "Alphabet() of {Allow: All, Exclude: class %d}" % f)
+    for f in (1, 2, 4, 8, 16):
+        need("require%d" % f, core.hx("".join(sorted(set(DOC_CLASSES[f])))), "Alphabet() of {Require: class %d}: a required class is drawn from, the ambiguous class like the others" % f)
+    for n in (0, -3):
+        need("newchar_len%d" % n, "%d,15,0,16,%s" % (n, core.hx("".join(sorted(everything - set(DOC_CLASSES[16]))))),
+             "NewCharRecipe(%d): the documented defaults whatever the length" % n)
     need("newcharalphabet", core.hx("".join(sorted(everything - set(DOC_CLASSES[16])))), "Alphabet() of NewCharRecipe(n): everything minus the ambiguous characters")
     need("flags", "1,2,4,8,16,3,15,0", "the class constants Uppers, Lowers, Digits, Symbols, Ambiguous, Letters, All, None")
     need("newchar", "17,15,0,16,-,0,-", "NewCharRecipe defaults (Length, Allow, Require, Exclude, AllowChars, #RequireSets, ExcludeChars)")
